@@ -456,6 +456,30 @@ def handleOps (op : String) (args : List String) (impl : Impl) : Option Ans :=
       | .other w => "FAIL:" ++ w
       | _ => "FAIL:decode"
     pure { model := "-", spec := sp, branch := "precise0:" ++ e.ts.name ++ ">" ++ ts }
+  | "eordfns", [a, b, _c] => do
+    -- C12 through the std entry points of the order (spec only, by instants): min / max return an operand with the
+    -- smaller / larger instant; clamp returns the epoch itself when it lies between the bounds, else the nearer bound
+    -- (equal instants: either operand)
+    let a ← parseEp? a; let b ← parseEp? b
+    let ia ← instOf a; let ib ← instOf b
+    let pick (want : Ep) (alt : Option Ep) (got : String) : Bool := got == showEp want || (match alt with | some x => got == showEp x | none => false)
+    let sp := match impl with
+      | .ok [mn, mx, cmn, cmx, cl, lo, hi] => (match parseEp? lo, parseEp? hi with
+          | some lo, some hi => (match instOf lo, instOf hi with
+            | some il, some ih =>
+              if !(convFits a b.ts && convFits b a.ts && convFits a lo.ts && convFits lo a.ts && convFits a hi.ts && convFits hi a.ts) then "na" else
+              let wmin := if ia ≤ ib then a else b
+              let wmax := if ia ≥ ib then a else b
+              let tie : Option Ep := if ia == ib then some (if wmin == a then b else a) else none
+              let wcl : Ep := if ia < il then lo else if ia > ih then hi else a
+              let clAlt : Option Ep := if ia == il then some lo else if ia == ih then some hi else none
+              verdict [("lo_le_hi", decide (il ≤ ih)), ("ord_min", pick wmin tie mn), ("ord_max", pick wmax tie mx), ("cmp_min", pick wmin tie cmn), ("cmp_max", pick wmax tie cmx),
+                       ("clamp", pick wcl clAlt cl)]
+            | _, _ => "FAIL:decode")
+          | _, _ => "FAIL:decode")
+      | .other w => "FAIL:" ++ w
+      | _ => "FAIL:decode"
+    pure { model := "-", spec := sp, branch := "eordfns:" ++ a.ts.name ++ "," ++ b.ts.name }
   | "ecmp_via", [how, _, _, _, _] => do
     -- C12 on the RESULT of a stepping entry point, in whatever form it was left (raw parts as printed), against the freshly
     -- constructed epoch of the same parts (moved by a few ns) and its re-expression in another scale: chronological
